@@ -1291,8 +1291,9 @@ class NumberOrderedForm(Operator):
                 partial = partial._multiply_op(i, power)
             # Now multiply by the number part
             partial = partial._multiply_expr(coeff)
-            # Finally, multiply by annihilation operators
-            for i, power in enumerate(powers):
+            # Finally, multiply by annihilation operators, in the order in which they
+            # are stored (reverse of the creation operators)
+            for i, power in reversed(tuple(enumerate(powers))):
                 if not power > 0:
                     continue
                 partial = partial._multiply_op(i, power)
